@@ -121,7 +121,7 @@ def check(E, s):
 
 
 def _binop(kind, cls, zop):
-    @task(f"selection.{kind}", props=["C18", "C10"], functions=FUNCS)
+    @task(f"selection.{kind}", props=["C18", "C10", "C07", "C33"], functions=FUNCS)
     def t(E):
         z3 = E.z3
         A = Addr(E)
@@ -144,7 +144,7 @@ def _binop(kind, cls, zop):
         # (C10: project walks a trace site by site with S.get_subselection(address); the projected weight is the density of the
         # SELECTED choices only if the sub-selection of a combined selection denotes the combination of the sub-selections)
         E.prove(f"C18.{cls}.get_subselection_agrees_with_denotation", den(E, A, sub, q) == den(E, A, plain, A.mk_cons(c, q)),
-                also=["C10"])
+                also=["C10", "C07", "C33"])
         E.refutable(f"selection.{kind}", den(E, A, r, p) == den(E, A, a, p))
     return t
 
@@ -153,7 +153,7 @@ _binop("or", "OrSel", "Or")
 _binop("and", "AndSel", "And")
 
 
-@task("selection.invert", props=["C18"], functions=FUNCS)
+@task("selection.invert", props=["C18", "C10", "C07", "C33"], functions=FUNCS)
 def t_invert(E):
     z3 = E.z3
     E.I.abstract_methods.pop(("Selection", "__invert__"))     # run the REAL Selection.__invert__ / ComplementSel.build
@@ -169,7 +169,10 @@ def t_invert(E):
     opaque_facts(E, A, a, c, q)
     E.prove("C18.ComplementSel.check_agrees_with_denotation", check(E, plain) == den(E, A, plain, A.nil))
     sub = E.method(plain, "get_subselection", c)
-    E.prove("C18.ComplementSel.get_subselection_agrees_with_denotation", den(E, A, sub, q) == den(E, A, plain, A.mk_cons(c, q)))
+    # (C07 / C10 / C33: regenerate, project and invalid_subset's filter(~shape) walk a trace or a choice map site by site with
+    # get_subselection; a complement that reaches into a callee must denote the complement there too)
+    E.prove("C18.ComplementSel.get_subselection_agrees_with_denotation", den(E, A, sub, q) == den(E, A, plain, A.mk_cons(c, q)),
+            also=["C10", "C07", "C33"])
     E.refutable("selection.invert", den(E, A, r, p) == den(E, A, a, p))
 
 
